@@ -34,3 +34,13 @@ claim("C01", "other",
       "trusted: struct pack/unpack inverse for equal formats; sa/codec.py row extraction (unrecognised yields are reported, never skipped)",
       "sibling-table cross-check (writer vs reader codec rows) + CFG path check for slot terminators", "DESIGN.md §4 C01")
 NA.pop("C01", None)
+claim("C16", "other",
+      "The sampler's fixed-layout records are extracted as slot sequences from the writer, the reader and the interleaved C-struct comments and compared slot by slot (35+11 slots: width, signedness, field, struct size); raw writes sized by a length-interval evaluator; flag byte and envelope bitmask in the bit domain; panning / envelope-y / CHNM numbering as affine (floor-division aware) inverse pairs; lookup tables as inverse maps; envelope chunk numbers dispatch to the attributes they were written from. PCM payload bytes are passed through (field pairing shown, values not decoded).",
+      "trusted: sa/layout.py slot extraction and length intervals; the struct comments as the record's declared layout",
+      "record-layout extraction + three-way sibling comparison + bit/affine domains", "DESIGN.md §4 C16")
+claim("C06", "other",
+      "Census over 47 writer functions and 113 load-time functions: an attribute a writer emits that only load-time code fills with raw file bytes (or that no constructor/setter defines) is a replay path; the single known one (Sampler.legacy_chunks) is proved unreachable for current-format input by folding the legacy predicate and evaluating it on the length of the record this library writes and on the reader's own full layout (both from the layout engine), with the signature constant shared by writer and reader.",
+      "trusted: naming convention for writer/load-time functions; sa/layout.py record lengths",
+      "taint-style who-assigns census + predicate folding on layout-derived lengths", "DESIGN.md §4 C06")
+for _p in ["C06", "C16"]:
+    NA.pop(_p, None)
